@@ -54,7 +54,7 @@ Definition rq_ver (r : req) : bytes := vk_ver (rq_key r).
 
 (* ---------- error kinds ---------- *)
 Definition EConflict : N := 1.     (* requirementsConflictedError: control flow of the search *)
-Definition EMarker : N := 3.       (* parseMarker failed *)
+Definition EMarkerBase : N := 20.  (* parseMarker failed: marker errors are passed on as 20 + e *)
 Definition EImpossible : N := 4.   (* resolutionImpossibleError -> Graph.Error *)
 Definition ETooDeep : N := 5.      (* errTooDeep -> Graph.Error *)
 Definition EInternal : N := 6.     (* buildGraph: unexpected package *)
@@ -306,8 +306,8 @@ Section Resolver.
     | Some env =>
         match marker_true env extras with
         | Ok b => Ok b
-        | Panic p => Panic p
-        | _ => Err EMarker
+        | Err e => Err (EMarkerBase + e)   (* parseMarker failed; the oracle's code is passed on *)
+        | _ => Err EMarkerBase
         end
     end.
 
@@ -669,7 +669,7 @@ Definition tab_matching (t : table) (v : vkey) : res (list vkey) :=
 Definition tab_marker (t : table) (raw : bytes) (extras : list bytes) : res bool :=
   match lookup (fun a b => bytes_eqb (fst a) (fst b) && list_bytes_eqb (snd a) (snd b)) (t_markers t) (raw, extras) with
   | Some r => r
-  | None => Panic EMissing
+  | None => Err EMissing
   end.
 Definition pair_eqb (a b : bytes * bytes) : bool := bytes_eqb (fst a) (fst b) && bytes_eqb (snd a) (snd b).
 Definition tab_cons_ok (t : table) (s : bytes) : bool :=
